@@ -183,8 +183,74 @@ def limit_formulas(chk, mod, lib):
                     chk.inconclusive.append(tag)
 
 
+def dxlog_series(chk):
+    """(a^2 ln a - b^2 ln b)/(a-b) near a = b (gm2_2loop_B.cpp dxlog): series branch against the definition with
+    ln a = ln b + ln(1+t), t = (a-b)/b, Mercator series + remainder"""
+    from . import C11
+    import sympy
+    mod, ks = C11.kernel_module()
+    if 'dxlog' not in dict(ks):
+        chk.record('dxlog', 'inconclusive', 'dxlog not found in gm2_2loop_B.cpp')
+        chk.inconclusive.append('dxlog')
+        return
+    a, b, t = z3.Real('a'), z3.Real('b'), z3.Real('t')
+    ex = executor(mod, RealDom(), ufs=C11.lib_ufs(mod))
+    st = ex.start('vx_dxlog', [a, b])
+    st.pc += [b >= zr(Fr(1, 100)), b <= zr(Fr(10 ** 4)), a >= zr(Fr(1, 200)), a <= zr(Fr(2 * 10 ** 4)), a == b * (1 + t)]
+    paths = ex.explore(st)
+    chk.absorb_executor(ex)
+    K = 10
+    T = Fr(1, 40)
+    ts = sympy.symbols('ts')
+    S_over_t = sum(sympy.Rational((-1) ** (k + 1), k) * ts ** (k - 1) for k in range(1, K + 1))
+    nonlog = sympy.expand((1 + ts) ** 2 * S_over_t)
+    rem = T ** K / ((K + 1) * (1 - T)) * (1 + T) ** 2          # |(1+t)^2 * remainder / t|
+    nexp = 0
+    for i, p in enumerate(paths):
+        tag = 'dxlog#%d' % i
+        if p.outcome[0] != 'ret' or isinstance(p.retval, float):
+            continue
+        lb = C02.leaf(ex, 'log', [b], p.pc)
+        la = [ex.leaves[j][2] for j in p.leaves if ex.leaves[j][0] == 'log' and not ex.leaves[j][1][0].eq(b)]
+        if la:
+            # closed-form regime (uses ln a): identity with free leaves
+            lav = la[0]
+            r, m = chk.prove(tag + ':identity', p.pc + [zr(p.retval) * (a - b) != a * a * lav - b * b * lb],
+                             family='dxlog', sample={'obligation': 'dxlog closed form == (a^2 ln a - b^2 ln b)/(a-b)'})
+            continue
+        nexp += 1
+        ref = b * ((2 + t) * lb + horner_z3(nonlog, ts, t, {}))
+        tol = zr(Fr(1, 10 ** 6)) * b - zr(rem) * b
+        cons = p.pc + [t <= zr(T), t >= -zr(T), z3.Or(zr(p.retval) - ref > tol, ref - zr(p.retval) > tol)]
+        r, m = chk.prove(tag + ':series', cons, timeout_ms=60000, family='dxlog',
+                         sample={'obligation': 'dxlog series branch within 1e-6 b of the definition for |a-b| <= b/40, '
+                                 'ln b free'})
+        if r == 'sat':
+            af, bf = float(m.real(a)), float(m.real(b))
+            got = C11.native_eval('dxlog', [af, bf])
+            mpmath.mp.dps = 60
+            A, B = mpmath.mpf(af), mpmath.mpf(bf)
+            refv = (A * A * mpmath.log(A) - B * B * mpmath.log(B)) / (A - B) if A != B else B * (1 + 2 * mpmath.log(B))
+            chk.traces_validated += 1
+            if abs(got - refv) > 1e-6 * bf:
+                chk.violation(tag, 'C11:dxlog:series', 'dxlog(%r,%r) = %r, definition %s' % (af, bf, got, mpmath.nstr(refv, 15)),
+                              '#!/bin/sh\ncd %s && exec python3-vt -m props.replay_c11 dxlog %r %r\n' % (VERIF, af, bf))
+            else:
+                chk.record(tag + ':series', 'inconclusive', 'sat not reproduced')
+                chk.inconclusive.append(tag + ':series')
+        # the series regime must not extend beyond |t| <= 1/40 on this domain
+        r, m = chk.prove(tag + ':window', p.pc + [z3.Or(t > zr(T), t < -zr(T))], family='dxlog')
+        if r == 'sat':
+            chk.record(tag + ':window', 'inconclusive', 'series used for |a-b| > b/40')
+            chk.inconclusive.append(tag + ':window')
+    if nexp == 0:
+        chk.record('dxlog:series', 'inconclusive', 'series regime not found')
+        chk.inconclusive.append('dxlog:series')
+
+
 def run(chk):
     mod = harness_module('h_ff_ni')
     lib = harness_native('h_ff')
     audit(chk, mod, lib)
     limit_formulas(chk, mod, lib)
+    dxlog_series(chk)
